@@ -35,6 +35,9 @@ def draw_cost(rng, cls, objective="min"):
         return rng.randrange(0, 10)
     if cls == "offset":
         return 100 + rng.randrange(0, 11)
+    if cls == "hard":
+        # pyDcop's usual *finite* hard-constraint value (the `infinity` handed to the runtime)
+        return 10000 if rng.random() < 0.25 else rng.randrange(0, 10)
     raise ValueError(cls)
 
 
